@@ -5,7 +5,7 @@ from .. import signing_engine as se
 from . import c09
 
 LEVEL = "model_checking"
-MUTANTS = {"lossy_file": "RoundTrip"}
+MUTANTS = {"lossy_file": "RoundTrip", "failed_write": "RoundTrip"}
 
 
 def check(run):
